@@ -282,3 +282,72 @@ func (c *Ctx) ruleLazyIndexExclusive(rule string) {
 		R.Unk(rule, fi.Key, P.Pos(fi.Decl), "no lazy index update found")
 	}
 }
+
+// R-LAZY-EXPAND-BEFORE-DECODE: a lazy field that is present but still held as
+// undecoded bytes must be expanded before a further occurrence of the field is
+// decoded into its slot; otherwise the slot is nil, the coder allocates a fresh
+// child and the undecoded content is shadowed (lost). Both tag loops that
+// decode eagerly into a message that may hold lazy fields need the step.
+func (c *Ctx) ruleLazyExpandBeforeDecode(rule string) {
+	R, P := c.R, c.P
+	R.Rule(rule, "in unmarshalPointerEager and unmarshalPointerLazy the call of the field's unmarshal function is preceded, in the same clause, by `if f.isLazy && … presence.Present(f.presenceIndex) { if <slot>.IsNil() { mi.lazyUnmarshal(p, f.num) } }`", 2)
+	for _, key := range []string{"internal/impl.(*MessageInfo).unmarshalPointerEager", "internal/impl.(*MessageInfo).unmarshalPointerLazy"} {
+		fi := c.need(rule, key)
+		if fi == nil {
+			continue
+		}
+		info := fi.Info()
+		pm := parentMap(fi.Decl.Body)
+		n := 0
+		walk(fi.Decl.Body, func(x ast.Node) bool {
+			call, ok := x.(*ast.CallExpr)
+			if !ok {
+				return true
+			}
+			se, ok := call.Fun.(*ast.SelectorExpr)
+			if !ok || se.Sel.Name != "unmarshal" || !strings.HasSuffix(exprStr(se.X), ".funcs") {
+				return true
+			}
+			n++
+			// enclosing case clause
+			var clause *ast.CaseClause
+			for p := pm[call]; p != nil; p = pm[p] {
+				if cc, ok := p.(*ast.CaseClause); ok {
+					clause = cc
+					break
+				}
+			}
+			good := false
+			if clause != nil {
+				for _, st := range clause.Body {
+					if st.Pos() >= call.Pos() {
+						break
+					}
+					is, ok := st.(*ast.IfStmt)
+					if !ok {
+						continue
+					}
+					cs := exprStr(is.Cond)
+					if strings.Contains(cs, ".isLazy") && strings.Contains(cs, ".Present(") {
+						nilTest, expand := false, false
+						walk(is.Body, func(y ast.Node) bool {
+							if in, ok := y.(*ast.IfStmt); ok && strings.Contains(exprStr(in.Cond), ".IsNil()") {
+								nilTest = true
+							}
+							if cl, ok := y.(*ast.CallExpr); ok && calleeKey(info, cl) == "internal/impl.(*MessageInfo).lazyUnmarshal" {
+								expand = true
+							}
+							return true
+						})
+						good = nilTest && expand
+					}
+				}
+			}
+			R.Check(good, rule, fi.Key+" decode#"+itoa(n), P.Pos(call), "undecoded lazy field expanded before the decode", "the field's unmarshal function is called without first expanding a present but still undecoded lazy field: a merging Unmarshal allocates a fresh child for the nil slot and the undecoded content of the field is lost")
+			return true
+		})
+		if n == 0 {
+			R.Unk(rule, fi.Key, P.Pos(fi.Decl), "call of the field's unmarshal function not found")
+		}
+	}
+}
